@@ -18,7 +18,9 @@ ID = 'C18'
 TIERS = {'quick': {'seeds': 8000, 'seconds': 45, 'determinism': 24},
          'thorough': {'seconds': 900, 'determinism': 128, 'minimise_s': 120}}
 RULE = ('in-process runs of small worlds under every subset of {--gc a [b [c]], -G flag..., '
-        '--coverage, --profile cProfile, --buffer, warnings= argument, -D with scripted stdin} x '
+        '--coverage, --profile cProfile, --buffer, warnings= argument (or an interpreter started '
+        'with -W), -D with scripted stdin}, tests that trace themselves or change the warnings '
+        'filters, x '
         'ways the test phase ends {normally, failing tests, exception escaping a layer '
         'testSetUp/testTearDown, KeyboardInterrupt in a test phase or layer hook, -x, -D/EndRun}; '
         'snapshot of gc thresholds/debug flags, traceback.format_exception/print_exception, '
@@ -93,6 +95,27 @@ def gen(seed):
     elif abort == 'post-mortem' and tests:
         plan += C.gen_test_faults(rng, disc, 1, excs=['AssertionError', 'ValueError'], p_occ=0)
         cfg['pm'] = True
+    # tests and test modules that touch the same interpreter globals themselves
+    if tests and rng.random() < 0.3:
+        # a test that traces itself and switches its tracer off again (sys.settrace(None))
+        d = rng.choice(tests)
+        plan.insert(0, C.fault_entry(d, rng.choice(C.test_phases(d)),
+                                     {'a': 'call', 'fn': 'settrace_cycle'}))
+    if rng.random() < 0.35:
+        # a module-level filterwarnings() of a test module, or a simplefilter() a test leaves
+        site = {'site': 'module.import',
+                'ident': '%s.tests.%s' % (W.PKG, rng.choice(world['modules'])['name'])}
+        if tests and rng.random() < 0.5:
+            d = rng.choice(tests)
+            site = C.fault_entry(d, rng.choice(C.test_phases(d)), {})
+        site.update({'a': 'call', 'fn': 'filterwarnings',
+                     'action': rng.choice(['error', 'ignore', 'always'])})
+        plan.insert(0, site)
+    if 'warnings' not in cfg and rng.random() < 0.4:
+        # the embedding interpreter was started with -W...: the runner adds no filter of its own
+        cfg['warnoptions'] = rng.choice([['ignore::ImportWarning'], ['default'], ['error::BytesWarning']])
+    elif rng.random() < 0.1:
+        cfg['warnings'] = ''
     opt = {'v': rng.choice([0, 1, 2])}
     return {'property': ID, 'seed': seed, 'world': world, 'plan': _ws.order_plan(plan),
             'opt': opt, 'cfg': cfg, 'abort': abort, 'sched': {'prng': seed}, 'knobs': {}}
@@ -138,20 +161,45 @@ def run(spec, ctx):
     if cfg.get('pm'):
         args.append('-D')
     kw = {}
-    if cfg.get('warnings'):
+    if cfg.get('warnings') is not None:
         kw['warnings'] = cfg['warnings']
+
+    def spy(frame, event, arg):
+        return None
+
+    def settrace_cycle(e):
+        sys.settrace(spy)
+        sys.settrace(None)
+
+    def filterwarnings(e):
+        warnings.simplefilter(e['action'], category=UserWarning)
+        warnings.filterwarnings('ignore', category=ResourceWarning, message='vsim')
+
+    from .. import simrt
+    orig_install = simrt.install
+
+    def install(*a, **kw_):
+        rt = orig_install(*a, **kw_)
+        rt.extra['calls'] = {'settrace_cycle': settrace_cycle, 'filterwarnings': filterwarnings}
+        return rt
+    old_warnoptions = list(sys.warnoptions)
     # gc debug flags / cProfile print to the real stderr: keep the lane's stderr clean
     devnull = os.open(os.devnull, os.O_WRONLY)
     os.dup2(devnull, 2)
     old_stdin = sys.stdin
     sys.stdin = io.StringIO('c\n' * 50)
     gc.disable()
+    simrt.install = install
+    if cfg.get('warnoptions'):
+        sys.warnoptions[:] = cfg['warnoptions']
     before = snapshot()
     try:
         res = core.execute(spec, args, run_kwargs=kw)
     finally:
         after = snapshot()
         gc_was_enabled = gc.isenabled()
+        simrt.install = orig_install
+        sys.warnoptions[:] = old_warnoptions
     stdin_restored = sys.stdin is not None
     sys.stdin = old_stdin
     T = TR.Truth(m, res.trace)
